@@ -12,6 +12,7 @@ from typing_extensions import Self
 from sigma import exceptions as sigma_exceptions
 from sigma.correlations import SigmaCorrelationRule, SigmaRuleReference
 from sigma.rule import SigmaDetection, SigmaDetections, SigmaLogSource, SigmaRule, SigmaRuleBase
+from sigma.rule.logsource import EmptyLogSource
 
 if TYPE_CHECKING:
     from sigma.exceptions import SigmaRuleLocation
@@ -95,6 +96,17 @@ class SigmaGlobalFilter(SigmaDetections):
 
 
 @dataclass
+class EmptySigmaGlobalFilter(SigmaGlobalFilter):
+    """
+    Empty global filter that is used as a placeholder for error handling purposes.
+    """
+
+    def __post_init__(self: Self) -> None:
+        # Skip all checks and initializations
+        pass
+
+
+@dataclass
 class SigmaFilter(SigmaRuleBase):
     """
     SigmaFilter class is used to represent a Sigma filter object.
@@ -118,6 +130,8 @@ class SigmaFilter(SigmaRuleBase):
         kwargs, errors = super().from_dict_common_params(sigma_filter, collect_errors, source)
 
         # parse log source
+        # placeholder if the log source is invalid (an error is recorded in this case)
+        filter_logsource: SigmaLogSource = EmptyLogSource()
         try:
             filter_logsource = SigmaLogSource.from_dict(sigma_filter["logsource"], source)
         except KeyError:
@@ -136,6 +150,8 @@ class SigmaFilter(SigmaRuleBase):
             errors.append(e)
 
         # parse detections
+        # placeholder if the filter definition is invalid (an error is recorded in this case)
+        filter_global_filter: SigmaGlobalFilter = EmptySigmaGlobalFilter({}, [])
         try:
             filter_global_filter = SigmaGlobalFilter.from_dict(sigma_filter["filter"], source)
         except KeyError:
